@@ -2,7 +2,9 @@
 
 Each function runs the REAL code and returns one Gallina term of type bool ("the model agrees with what the implementation did"):
     tree_case(t)      depccg.printer.html._mathml_subtree(t)              vs  mathml_subtree / hser_list (mathml_nodes t) / dec_mathml / hparse
-    batch_case(batch) depccg.printer.to_string(batch, format='html')      vs  html_doc
+    batch_case(batch) depccg.printer.to_string(batch, format='html')      vs  FmtHtmlDoc.html_doc (page template and f-strings from the generated
+                      GenFmt.v), and the document reader dec_html_doc run on the REAL text: sentence numbers, tree indices, score texts
+                      and header words against the Python objects, views against html_doc_views
     scan_case(s)      re.findall(r'([^\\[\\]]+)(\\[.+?\\])*', s) and _mathml_cat(s)  vs  mathml_scan / mathml_cat
     escape_case(s)    html.escape(s)                                       vs  html_escape (and html_unescape back)
 KeyError / IndexError / AssertionError of the implementation are the expected value None.
@@ -21,7 +23,7 @@ from gallina import lit, gtree, gopt, glist
 
 PRE_HTML = '''From Coq Require Import List NArith Bool Arith.
 Import ListNotations.
-Require Import Cat CatFacts Tree Fmt FmtHtml.
+Require Import Cat CatFacts Tree Fmt FmtHtml FmtHtmlDoc.
 Open Scope N_scope.
 Definition h_otext_eqb (a b : option text) : bool := match a, b with Some x, Some y => text_eqb x y | None, None => true | _, _ => false end.
 Fixpoint h_list_eqb {A : Type} (e : A -> A -> bool) (a b : list A) : bool :=
@@ -69,8 +71,44 @@ Definition ChkHtmlTreeL (t : tree) (e : option text) (readable : bool) : list bo
    | None => true
    end].
 Definition ChkHtmlTree (t : tree) (e : option text) (readable : bool) : bool := forallb (fun b => b) (ChkHtmlTreeL t e readable).
-(* one batch; a record = (score as Python formats it with .5e, tree) *)
-Definition ChkHtmlBatch (b : list (list (text * tree))) (e : option text) : bool := h_otext_eqb (html_doc b) e.
+(* one batch; a record = (score as Python formats it with .5e, tree).  The model's document against the real one; and - when every tree is
+   readable (see above), has non-empty words / labels and a score text without the characters html.escape rewrites: the domain of
+   FmtHtmlDocProofs.html_doc_roundtrip - the document reader on the REAL text: its headers and records against html_doc_views, and the sentence
+   numbers / words (exp_h) and sentence numbers / tree indices / score texts (exp_r) against what the harness took from the Python objects *)
+Definition h_rec_eqb (a b : html_rec) : bool :=
+  let '(k, i, s, v) := a in let '(k', i', s', v') := b in Nat.eqb k k' && Nat.eqb i i' && text_eqb s s' && h_view_eqb v v'.
+Definition h_hdr_eqb (a b : nat * text) : bool := Nat.eqb (fst a) (fst b) && text_eqb (snd a) (snd b).
+Definition h_num_eqb (a b : nat * nat * text) : bool :=
+  Nat.eqb (fst (fst a)) (fst (fst b)) && Nat.eqb (snd (fst a)) (snd (fst b)) && text_eqb (snd a) (snd b).
+Definition h_docv_eqb (a b : option (list (nat * text) * list html_rec)) : bool :=
+  match a, b with
+  | Some (h, r), Some (h', r') => h_list_eqb h_hdr_eqb h h' && h_list_eqb h_rec_eqb r r'
+  | None, None => true
+  | _, _ => false
+  end.
+Definition ChkHtmlBatchL (b : list (list (text * tree))) (e : option text) (readable : bool) (exp_h : list (nat * text)) (exp_r : list (nat * nat * text)) : list bool :=
+  [h_otext_eqb (html_doc b) e;
+   match e with
+   | Some txt =>
+       if readable && forallb (forallb (fun st : text * tree => score_plain (fst st) && texts_nonempty (snd st))) b then
+         h_docv_eqb (dec_html_doc txt) (html_doc_views b)
+       else true
+   | None => true
+   end;
+   match e with
+   | Some txt =>
+       if readable && forallb (forallb (fun st : text * tree => score_plain (fst st) && texts_nonempty (snd st))) b then
+         match dec_html_doc txt with
+         | Some (h, r) => h_list_eqb h_hdr_eqb h exp_h && h_list_eqb h_num_eqb (map (fun x : html_rec => fst x) r) exp_r
+         | None => false
+         end
+       else true
+   | None => true
+   end;
+   (* the page frame is readable whatever the trees are *)
+   match e with Some txt => h_is_some (dec_html_frame txt) | None => true end].
+Definition ChkHtmlBatch (b : list (list (text * tree))) (e : option text) (readable : bool) (exp_h : list (nat * text)) (exp_r : list (nat * nat * text)) : bool :=
+  forallb (fun x => x) (ChkHtmlBatchL b e readable exp_h exp_r).
 (* the regular expression of _mathml_cat and _mathml_cat itself *)
 Definition h_pair_eqb (a b : text * text) : bool := text_eqb (fst a) (fst b) && text_eqb (snd a) (snd b).
 Definition ChkScan (s : text) (e : list (text * text)) (m : text) : bool :=
@@ -127,10 +165,27 @@ def gbatch(batch):
     return glist(batch, lambda trees: glist(trees, lambda st: f'({lit(f"{st.score:.5e}")},{gtree(st.tree)})'))
 
 
-def batch_case(batch):
+def _batch_args(batch):
     from depccg.printer import to_string
     exp = _attempt(to_string, batch, format='html')
-    return f'ChkHtmlBatch {gbatch(batch)} {gopt(exp, biglit)}'
+    readable = all(readable_tree(st.tree) for trees in batch for st in trees)
+    # what the document is expected to carry, taken from the Python objects (not from the model)
+    hdr = [(k, _attempt(lambda: trees[0].tree.word)) for k, trees in enumerate(batch, 1) if trees]
+    hdr = [] if any(w is None for _, w in hdr) else hdr
+    recs = [(k, i, f'{st.score:.5e}') for k, trees in enumerate(batch, 1) for i, st in enumerate(trees, 1)]
+    gh = glist(hdr, lambda x: f'({x[0]}%nat,{lit(x[1])})')
+    gr = glist(recs, lambda x: f'({x[0]}%nat,{x[1]}%nat,{lit(x[2])})')
+    return f'{gbatch(batch)} {gopt(exp, biglit)} {"true" if readable else "false"} {gh} {gr}'
+
+
+def batch_case(batch):
+    return 'ChkHtmlBatch ' + _batch_args(batch)
+
+
+def batch_case_detail(batch, k):
+    """the k-th sub-check of batch_case (0 html_doc = the real text, 1 dec_html_doc on the real text = html_doc_views, 2 numbers / scores / words
+    against the Python objects, 3 the page frame is readable)"""
+    return f'nth {k} (ChkHtmlBatchL {_batch_args(batch)}) false'
 
 
 def scan_case(s):
